@@ -252,17 +252,39 @@ func init() {
 		// --- durability before DeleteOld: FileWriter.Close fsyncs before it reports success, and writeV2File fails on its error
 		if wf, err := Load("app/core/hydra/swamp/chronicler/v2/writer.go"); err == nil {
 			if cd := wf.Func("FileWriter", "Close"); cd != nil {
-				t := strings.Join(strings.Fields(wf.Str(cd.Body)), " ")
 				closeErr := false
 				if wd := f.Func("Migrator", "writeV2File"); wd != nil {
 					wt := strings.Join(strings.Fields(f.Str(wd.Body)), " ")
 					closeErr = strings.Contains(wt, "if err := writer.Close(); err != nil { os.Remove(filePath) return err }")
 				}
-				i, j := strings.Index(t, "if err := fw.file.Sync(); err != nil { fw.file.Close() return err }"), strings.Index(t, "fw.closed = true")
+				// structurally, over the top-level statements of Close: an `if err := fw.file.Sync(); err != nil { …; return err }`
+				// comes before `fw.closed = true` and before the only success return (`return fw.file.Close()`, the last statement);
+				// whatever else the error branch does (seek back, keep the file open) does not matter here
+				syncAt, closedAt, earlyOk := -1, -1, false
+				for i, st := range cd.Body.List {
+					switch v := st.(type) {
+					case *ast.IfStmt:
+						if v.Init != nil && wf.Str(v.Init) == "err := fw.file.Sync()" && wf.Str(v.Cond) == "err != nil" && v.Else == nil && len(v.Body.List) > 0 {
+							if r, ok := v.Body.List[len(v.Body.List)-1].(*ast.ReturnStmt); ok && len(r.Results) == 1 && wf.Str(r.Results[0]) == "err" && syncAt < 0 {
+								syncAt = i
+							}
+						}
+					case *ast.AssignStmt:
+						if wf.Str(v) == "fw.closed = true" && closedAt < 0 {
+							closedAt = i
+						}
+					case *ast.ReturnStmt:
+						if i != len(cd.Body.List)-1 {
+							earlyOk = true // a success return before the end
+						}
+					}
+				}
+				last, _ := cd.Body.List[len(cd.Body.List)-1].(*ast.ReturnStmt)
+				endsWithClose := last != nil && len(last.Results) == 1 && wf.Str(last.Results[0]) == "fw.file.Close()"
 				switch {
-				case i >= 0 && j > i && closeErr:
+				case syncAt >= 0 && closedAt > syncAt && endsWithClose && !earlyOk && closeErr:
 					put("syncsBeforeDelete", Yes, fmt.Sprintf("%s:%d", wf.Path, wf.Line(cd)))
-				case !strings.Contains(t, "Sync()") && closeErr:
+				case !strings.Contains(wf.Str(cd.Body), "Sync()") && closeErr:
 					put("syncsBeforeDelete", No, fmt.Sprintf("%s:%d", wf.Path, wf.Line(cd)))
 				}
 			}
